@@ -79,6 +79,41 @@ CLAIMED = {
         "technique": "Coq proof (reaper chain lemma, NoDup masking argument) + translated decision logic + exhaustive subset correspondence",
         "design_ref": "DESIGN.md section 4, C09",
     },
+    "C10": {
+        "level": "proof",
+        "text": "Coq theorems over ALL crash prefixes k, any number of batches, every permutation of the deletion order "
+                "and states reached through any number of crashed operations and crashed recoveries: a later reap "
+                "refuses, errors, or returns exactly the direct run's data (also with allow_incomplete); the documented "
+                "recovery is exact and re-entrant; data already in the harvester file survives every crash (atomic "
+                "replace); the old remove-then-write and in-place publication are refuted by witnesses. REAL process "
+                "deaths (os._exit at every interposed file-operation boundary incl. torn write prefixes, cross-checked "
+                "with strace SIGKILL injection in the thorough tier) on sow / grow / reap of raw, Runner, Harvester and "
+                "Sampler crops, second crashes during recovery, compared with the model state after the same prefix.",
+        "note": "PARTIAL: durability across power loss (fsync, directory entries) is below the model; P1 (a torn pickle "
+                "never unpickles) and atomic rename are assumptions. One KNOWN FINDING: a sampler crop killed between "
+                "the table save and the crop's deletion re-appends its rows on recovery (C10_sampler_window_refuted). "
+                "'Sown files incomplete' includes the crop's sub-directories. Trusted: Coq kernel, gen_crash translator, "
+                "the interposition layer. No axioms.",
+        "technique": "Coq proof (invariants over crash prefixes and recovery) + translated step order + real kills at every file-operation boundary",
+        "design_ref": "DESIGN.md section 4, C10",
+    },
+    "C11": {
+        "level": "proof",
+        "text": "Coq theorems for ANY number of growers, batches and ANY schedule (induction over the schedule): every "
+                "visible result file is whole (temporary names never match the result pattern); a waiting reaper never "
+                "fails and, when done, has read exactly batches 1..B, each whole; every count a progress query reports is "
+                "of whole results of growers that have renamed; two growers of the same batch never interfere; the old "
+                "in-place publication is refuted by schedules. The publication protocol (unique temp file + os.replace, one "
+                "write after the whole batch) is regenerated from cropping.py and bridged. A deterministic scheduler runs "
+                "the REAL grow / reap(wait=True) / progress queries as threads with interposed file operations: "
+                "sleep-set DFS over schedules (exhaustive for 1-3 growers x 1-3 batches in the thorough tier) plus seeded "
+                "random schedules, compared with the model and an independent oracle.",
+        "note": "Assumptions: P1 a torn pickle never unpickles; P2 rename within a directory is atomic and an opened file "
+                "keeps reading its own inode; file steps are atomic at the granularity of the interposed calls. "
+                "Trusted: Coq kernel, gen_publish translator, the thread scheduler. No axioms.",
+        "technique": "Coq proof (invariant by induction over schedules) + translated publication protocol + systematic schedule exploration of the real code",
+        "design_ref": "DESIGN.md section 4, C11",
+    },
     "C12": {
         "level": "proof",
         "text": "The reap entry points are regenerated from cropping.py as ordered stage programs; Coq proves by "
@@ -166,6 +201,21 @@ CLAIMED = {
                 "math.ceil(n/s) exact for n < 2^53. No axioms (Print Assumptions: closed under the global context).",
         "technique": "Coq proof (induction over the settings list, lia/nia) + translator-regenerated model + bridge lemmas + differential correspondence",
         "design_ref": "DESIGN.md section 4, C07",
+    },
+    "C16": {
+        "level": "proof",
+        "text": "Coq theorems for all B and all id lists: the tasks a generated script grows are exactly the requested ids "
+                "(list or single int), the missing ids when some results exist, or 1..B; the header range covers exactly "
+                "those tasks; the PBS single-element rewrite; single mode runs once; template well-formedness (every "
+                "{field} supplied, balanced Python lines) by computation on the template strings regenerated from "
+                "cropping.py; the CLI grows exactly the missing batches. Selection logic and templates are regenerated by a "
+                "translator and bridged. Every generated script is checked with bash -n, its embedded program compiled, "
+                "and EXECUTED with bash once per array index with stub scheduler variables; the crop state is compared.",
+        "note": "PARTIAL in that shell / Python syntactic validity is decided by bash -n and compile(), not proved. "
+                "Real schedulers are absent (stub variables). Two defects found here were repaired (known_findings.json). "
+                "Trusted: Coq kernel, gen_templates translator. No axioms.",
+        "technique": "Coq proof of the selection logic + vm_compute well-formedness of translator-regenerated templates + end-to-end execution of generated scripts",
+        "design_ref": "DESIGN.md section 4, C16",
     },
     "C17": {
         "level": "proof",
